@@ -163,6 +163,12 @@ class Prog:
                 parts.append(".%s = %s" % (f, self.build_value(ft, "%s.%s" % (path, f), lines, counter)))
             counter[0] += 1
             v = "v%d" % counter[0]
+            # keys of a struct literal may come in any order: half of the literals are written permuted
+            if self.rng.below(2):
+                for i in range(len(parts) - 1, 0, -1):
+                    j = self.rng.below(i + 1)
+                    parts[i], parts[j] = parts[j], parts[i]
+                self.permuted = getattr(self, "permuted", 0) + 1
             lines.append("    let %s: %s = { %s };" % (v, t[1][0], ", ".join(parts)))
             return v
         elems = [self.build_value(t[2], "%s[%d]" % (path, i), lines, counter) for i in range(t[1])]
